@@ -27,6 +27,7 @@ func init() {
 			{ID: "C18.R7", Text: "the change-stream gate reads the server's storage backend: IsMagma ⇔ the field decoded from \"storageBackend\" equals \"magma\"; IsEphemeral ⇔ the field decoded from \"bucketType\" equals \"ephemeral\" (exhaustive)", Run: bucketPredicates},
 			{ID: "C18.R8", Text: "below 5.5.0 streams are closed one at a time: the token channel of the serial close has one plain blocking send (in the close loop, before the close request) and one plain blocking receive (in the end listener) and is touched by nothing else", Run: serialCloseTokens},
 			{ID: "C18.R9", Text: "the gate constants are what their declarations say for the whole run: apart from the logger and the tracer no package-level variable of the module is written after the package initialiser (no init() that re-points them, no store through them)", Run: globalsFrozen},
+			{ID: "C18.R10", Text: "below 5.5.0 every close request is answered: the observer forwards the end of its stream to the end listener ⇔ the end switch is not thrown — also for a closed observer, whose end is the token the serial close waits for (same rule as C12.R4)", Run: c12r4},
 			{ID: "C18.R4", Text: "the version the gates are evaluated on is the parser's result for the string the server reported: every non-nil version GetVersion returns is nodeVersionFromString(/pools implementationVersion) under that call's err == nil (no invented fallback version), and newDcp's gates use GetVersion's result", Run: c18r4},
 		},
 	})
